@@ -4,19 +4,16 @@ import json, os
 ROOT = os.path.dirname(os.path.dirname(os.path.abspath(__file__)))
 ALL = ["C%02d" % i for i in range(1, 21)]
 
-CLAIMS = {
- "C14": dict(
-    category="proof", design_ref="DESIGN.md §5 C14",
-    text=("Theorems (Props/C14.v, all closed under the global context) about Euler.solution_walk, a Gallina transcription of "
-          "get_solution_walks/_reconstruct_eulerian_walk: for every residual multigraph that leaves the source once, is balanced at "
-          "inner nodes and connected, the result is one source-to-sink walk whose edge multiset equals the rounded multiplicities "
-          "(no fuel exhaustion, nothing left over); all-zero gives the empty walk; rounding lemmas. Tie: exact-output "
-          "correspondence (E3) of the extracted model with the Python method on generated Eulerian multigraphs and a malformed "
-          "stream, rebuilt from /repo on every run; the property is also evaluated directly on every implementation output."),
-    note=("Trusted: Coq kernel, extraction (ExtrOcamlBasic only), OCaml driver, harness; the model is hand-written and related to "
-          "the code only by the sampled correspondence; iteration order of networkx is taken from the implementation."),
-    technique="Coq proof (induction over Hierholzer phases) + extracted-model differential correspondence"),
-}
+CLAIMS = {}
+for f in sorted(os.listdir(os.path.join(ROOT, "harness", "claims"))):
+    if f.endswith(".json"):
+        CLAIMS[f[:-5]] = json.load(open(os.path.join(ROOT, "harness", "claims", f)))
+NOT_YET = {}
+nf = os.path.join(ROOT, "harness", "claims", "not_claimed.txt")
+if os.path.exists(nf):
+    for line in open(nf):
+        if ":" in line:
+            k, v = line.split(":", 1); NOT_YET[k.strip()] = v.strip()
 
 def main():
     checks = []
@@ -51,6 +48,5 @@ def main():
         "notes": "See DESIGN.md. Each check: full incremental make of the Coq development, re-check of Props/<id>.v with Print Assumptions, then correspondence of the extracted model with /repo's working tree.",
     }
     json.dump(m, open(os.path.join(ROOT, "MANIFEST.json"), "w"), indent=1)
-NOT_YET = {}
 if __name__ == "__main__":
     main()
